@@ -76,7 +76,7 @@ Definition expected_retry : list (string * string) :=
     ("RetryExecutor._pop_job", "e2f7c615b52a084cbc05");
     ("RetryExecutor._append_job", "839e92296a885d60eafd");
     ("RetryExecutor._retry", "81eb3f5c28757a556902");
-    ("RetryExecutor._cancel", "5cfd722222a1505a2ed3");
+    ("RetryExecutor._cancel", "709b520685d43d612b36");
     ("RetryExecutor._delegate_callback", "6a49040910031abbb913");
     ("<class RetryExecutor>", "bb2c76076c1387ec1c91");
     ("copy_future", "62d93144cb0995c0e631");
